@@ -158,10 +158,16 @@ func c02Script(sc *L1Scenario, tier int) {
 
 // exhaustive schedules of the given length over {P, D, A, C0, C1, C2}
 func c02Exhaustive(emit func(build L1Builder), tier int) {
-	length := 3
 	if tier == 1 {
-		length = 5
+		c02Enumerate(emit, nil, 5)
+		c02Enumerate(emit, []int{0, 2}, 4)
+	} else {
+		c02Enumerate(emit, []int{0, 2}, 3)
 	}
+}
+
+// all schedules prefix ++ w for w of the given length over the six letters
+func c02Enumerate(emit func(build L1Builder), prefix []int, length int) {
 	total := 1
 	for i := 0; i < length; i++ {
 		total *= 6
@@ -194,9 +200,14 @@ func c02Exhaustive(emit func(build L1Builder), tier int) {
 			var live []*ProposedTree
 			nProposed := 0
 			x := idx
-			for pos := 0; pos < length; pos++ {
-				ch := x % 6
-				x /= 6
+			for pos := 0; pos < len(prefix)+length; pos++ {
+				var ch int
+				if pos < len(prefix) {
+					ch = prefix[pos]
+				} else {
+					ch = x % 6
+					x /= 6
+				}
 				switch ch {
 				case 0:
 					t := t1
@@ -241,10 +252,10 @@ func genC02(seed uint64, tier, outdir string) *Report {
 		Rule: "a case is one L1 history on a fresh instance (scripted resubmission-dense schedule plus random tail, fully random, or one schedule of the exhaustive enumeration); distinct by hash of the op list; non-trivial = at least one finalization accepted and at least one rejected"},
 		seed, tier, outdir)
 	rep.Exhaustive = true
-	n := 3
+	what := "propose, advance one period, then all 6^3 schedules of length 3"
 	if tier == "thorough" {
-		n = 5
+		what = "all 6^5 schedules of length 5, and propose, advance one period, then all 6^4 schedules of length 4"
 	}
-	rep.Notes = append(rep.Notes, fmt.Sprintf("exhaustive: all 6^%d schedules of length %d over {propose (3-leaf tree / its 4-leaf superset alternating), delete last, advance one period, claim leaf 0, 1, 2 against the latest output}", n, n))
+	rep.Notes = append(rep.Notes, "exhaustive: "+what+" over {propose (3-leaf tree / its 4-leaf superset alternating), delete last, advance one period, claim leaf 0, 1, 2 against the latest output}")
 	return rep
 }
